@@ -1154,7 +1154,7 @@ func growExpect(s acme.Signal, d int) Expect {
 // fitsOracle: extra token appended to the O line of operations whose model takes the layout oracle
 func fitsOracle(o Op, cause string) (int64, bool) {
 	switch o.Name {
-	case "EnumAddValue", "EvalUpdateIndex", "StdSetType", "EnumSetEnum":
+	case "EnumAddValue", "EvalUpdateIndex", "StdSetType", "EnumSetEnum", "MsgAppendSignal", "MsgInsertSignal", "MuxInsertSignal":
 		if cause == "Layout" {
 			return 0, true
 		}
